@@ -92,7 +92,7 @@ def run(rep: Report, tier: str) -> None:
                 seen_benign.add(key)
                 callees = {(_callee_name(c)) for s in node.body for c in ast.walk(s) if isinstance(c, ast.Call)}
                 if allowed is not None:
-                    grown = sorted(c for c in callees if c not in allowed)
+                    grown = sorted(c for c in callees if c not in allowed and not _is_plain_record(prog, c))
                     rep.check(not grown, ra, mod.name, q, f"benign handler except {caught} in {q} still covers only the confirmed calls", f"the try body guarded by the tabled-benign 'except {caught}' in {q} now also covers {grown}: errors of those calls would be swallowed ({reason})", loc(node), definite=_any_known(grown) or not (set(allowed) - callees))  # a new name standing where a confirmed one vanished may be a rename: not a positive finding
                 else:
                     rep.ok(ra, f"benign handler except {caught} in {q}", reason)
@@ -195,6 +195,12 @@ SPECS = {
         "taxable_event": _V("AbstractTransaction.type_check"),
     },
 }
+
+
+def _is_plain_record(prog, name: str) -> bool:
+    """A NamedTuple / dataclass of the package without an __init__ of its own: constructing it evaluates its arguments and nothing else."""
+    cands = [c for c in prog.classes.values() if c.name == name]
+    return bool(cands) and all((c.is_namedtuple() or c.is_dataclass()) and "__init__" not in c.methods and "__post_init__" not in c.methods for c in cands)
 
 
 def _any_known(names) -> bool:
